@@ -19,6 +19,15 @@ JOBS = [
     dict(job=('specs.tr_small', 'record_data', {}), props=['C04', 'C05', 'C09']),
     dict(job=('specs.tr_small', 'play_data', {}), props=['C02', 'C09', 'C11']),
     dict(job=('specs.tr_small', 'reset_active_recording', {}), props=['C05', 'C09', 'C17']),
+    # ---- playback/interception/files
+    dict(job=('specs.files', 'get_file_path', {}), props=['C20']),
+    dict(job=('specs.files', 'intercept_file', {}), props=['C20']),
+    dict(job=('specs.files', 'roundtrip', {}), props=['C20']),
+    dict(job=('specs.files', 'restore_input', {}), props=['C20']),
+    dict(job=('specs.files', 'restore_output', {}), props=['C20']),
+    dict(job=('specs.files', 'prepare_handlers', {}), props=['C20']),
+    dict(job=('specs.files', 'size_limit', {}), props=['C20']),
+    dict(job=('specs.files', 'holder_to_file', {}), props=['C20']),
     # ---- key functions
     dict(job=('specs.keys', 'input_key', {}), props=['C06']),
     dict(job=('specs.keys', 'output_key', {}), props=['C03', 'C06']),
@@ -91,4 +100,8 @@ CLAIMS['C06'] = dict(text='Contract of the real _input_interception_key (result 
                           'loop invariant over capture_args with the selection rule as step equations, frame: modifies nothing) and of '
                           '_output_interception_key / _format_alias; injectivity lemmas over the key templates decided by cvc5.',
                      note=TB + 'jsonpickle.encode as a function of structural value is assumed (A1); its hash-seed dependence for sets is a recorded known finding.')
+CLAIMS['C20'] = dict(text='Contracts of the real file handlers over a ghost file system: keyword-then-position path selection, no read above the limit '
+                          '(strict comparison), base64 content within it, restore writes exactly the recorded bytes at the call path and nothing else, '
+                          'serialize/deserialize round trip for every byte string including the placeholder text.',
+                     note=TB + 'base64 and file-system behaviour assumed (A3, A4); the trip through recorder and cassette composes with C01/C07 (A1 for bytes).')
 NOT_APPLICABLE = {}
